@@ -384,24 +384,34 @@ func (z *zkDCS) AcquireLock(path string) bool {
 func (z *zkDCS) ReleaseLock(path string) {
 	fullPath := z.buildFullPath(path)
 	z.lockHeld.Delete(fullPath)
-	data, stat, err := z.retryGet(fullPath)
-	if err != nil && !errors.Is(err, zk.ErrNoNode) {
-		z.logger.Error().Err(err).Msgf("failed to get lock info %s", fullPath)
-		return
-	}
-	owner := LockOwner{}
-	if err = json.Unmarshal(data, &owner); err != nil {
-		z.logger.Error().Err(err).Msgf("unexpected lock data %s (%s)", fullPath, data)
-		return
-	}
-	if owner != z.getSelfLockOwner() {
-		z.logger.Error().Msgf("failed to release lock %s: process is not an owner", fullPath)
-		return
-	}
-	err = z.retryDelete(fullPath, stat.Version)
-	if err != nil {
-		z.logger.Error().Err(err).Msgf("failed to delete lock node %s", fullPath)
-	}
+	self := z.getSelfLockOwner()
+	// Lock nodes are created and deleted but never updated, so every lock node has version 0 and
+	// the versioned delete cannot tell our node from one created by another process later.
+	// Therefore every attempt (re-)reads the owner first: a delete whose reply was lost may have
+	// been applied, and the lock may belong to someone else by the time we retry.
+	z.retryRequest(func() error {
+		data, stat, err := z.conn.Get(fullPath)
+		if err != nil {
+			if !errors.Is(err, zk.ErrNoNode) {
+				z.logger.Error().Err(err).Msgf("failed to get lock info %s", fullPath)
+			}
+			return err
+		}
+		owner := LockOwner{}
+		if err = json.Unmarshal(data, &owner); err != nil {
+			z.logger.Error().Err(err).Msgf("unexpected lock data %s (%s)", fullPath, data)
+			return nil
+		}
+		if owner != self {
+			z.logger.Error().Msgf("failed to release lock %s: process is not an owner", fullPath)
+			return nil
+		}
+		err = z.conn.Delete(fullPath, stat.Version)
+		if err != nil && !errors.Is(err, zk.ErrNoNode) {
+			z.logger.Error().Err(err).Msgf("failed to delete lock node %s", fullPath)
+		}
+		return err
+	})
 }
 
 func (z *zkDCS) create(path string, val any, flags int32) error {
